@@ -33,7 +33,16 @@ def main(argv):
     if not binfo["model_ok"]:
         print("model does not build")
         return 1
-    if "family" in case and hasattr(mod, "families"):
+    if "family" in case and hasattr(mod, "families") and prop == "C16":
+        # C16: "main" is the module itself, "reentrant" its second correspondence family
+        fam = case["family"]
+        inner = case["case"]
+        famod = mod if fam == "main" else importlib.import_module("props.c16r")
+        from props import mutcommon as mc
+        o = mc.run_impl([inner], prop)[0]
+        lit = (mod.literal if fam == "main" else famod.literal)(inner, o)
+        header, ctype, driver, width = famod.HEADER, famod.CASE_TYPE, famod.DRIVER, famod.WIDTH
+    elif "family" in case and hasattr(mod, "families"):
         fam = case["family"]
         inner = case["case"]
         famod = importlib.import_module("props." + {"nav": "c04", "walk": "c15", "iter": "c06", "search": "c14", "get": "c07",
@@ -67,4 +76,8 @@ def main(argv):
 
 
 if __name__ == "__main__":
-    sys.exit(main(sys.argv[1:]))
+    try:
+        rc = main(sys.argv[1:])
+    finally:
+        core.cleanup_run_dirs()
+    sys.exit(rc)
